@@ -20,6 +20,16 @@ from . import AnalysisError
 from .model import norm, walk_own
 
 
+# The classes gffutils is made of: constructing one of them is an event the checks reason about (opaque object, keyword
+# arguments recorded) unless a check asks for real construction.  Any other package class is a helper object (a query
+# builder, a spool, a tally ...) and is constructed by evaluating its __init__.
+DOMAIN_CLASSES = {
+    "feature.Feature", "attributes.Attributes", "interface.FeatureDB", "create._DBCreator", "create._GFFDBCreator", "create._GTFDBCreator",
+    "iterators.Directive", "iterators._BaseIterator", "iterators._FileIterator", "iterators._UrlIterator", "iterators._FeatureIterator",
+    "parser.Quoter", "gffwriter.GFFWriter",
+}
+
+
 class Unsupported(AnalysisError):
     pass
 
@@ -235,6 +245,67 @@ class SuperVal:
         raise Unsupported("super().%s not found" % attr)
 
 
+class LibFn:
+    """A callable produced by a modelled library function (operator.itemgetter(1), functools.partial(f, x), a namedtuple
+    type): calling it runs `fn(interp, pos, kw, node)`."""
+
+    def __init__(self, name, fn):
+        self.name, self.fn = name, fn
+
+    def __repr__(self):
+        return "<%s>" % self.name
+
+    def __deepcopy__(self, memo):
+        return self
+
+    def ai_invoke(self, interp, pos, kw, node):
+        return self.fn(interp, pos, kw, node)
+
+    def ai_getattr(self, interp, attr):
+        extra = self.__dict__.get("attrs", {})
+        if attr in extra:
+            return extra[attr]
+        return NotImplemented
+
+    def ai_call(self, interp, attr, pos, kw, node):
+        extra = self.__dict__.get("methods", {})
+        if attr in extra:
+            return extra[attr](interp, pos, kw, node)
+        raise Unsupported("method %s of %r" % (attr, self))
+
+
+class NamedTuple(tuple):
+    """An instance of a collections.namedtuple type: a tuple whose items are also reachable by field name."""
+
+    def __new__(cls, values, fields, typename):
+        t = tuple.__new__(cls, values)
+        t.nt_fields, t.nt_name = tuple(fields), typename
+        return t
+
+    def __deepcopy__(self, memo):
+        import copy as _copy
+        return NamedTuple([_copy.deepcopy(v, memo) for v in self], self.nt_fields, self.nt_name)
+
+    def ai_getattr(self, interp, attr):
+        if attr in self.nt_fields:
+            return self[self.nt_fields.index(attr)]
+        if attr == "_fields":
+            return self.nt_fields
+        return NotImplemented
+
+    def ai_call(self, interp, attr, pos, kw, node):
+        if attr == "_replace":
+            vals = list(self)
+            for k, v in kw.items():
+                vals[self.nt_fields.index(k)] = v
+            return NamedTuple(vals, self.nt_fields, self.nt_name)
+        if attr == "_asdict":
+            return dict(zip(self.nt_fields, self))
+        if attr in ("index", "count"):
+            return getattr(tuple(self), attr)(*pos)
+        raise Unsupported("namedtuple method %s" % attr)
+
+
 class GenList(list):
     """The items a generator expression will produce (evaluated eagerly): a list to every consumer, and next() takes
     items off its front."""
@@ -379,6 +450,7 @@ class Interp:
         self.hole_free_of = ""    # characters the symbolic holes are assumed not to contain
         self.vfs = None           # scenario mode: {path name: MemFile content}; open()/unlink act on it
         self.construct_real = set()   # package classes whose constructor is evaluated (their __init__ run on a fresh object)
+        self.construct_helpers = True # ...and every package class that is not one of the domain classes below (helper objects)
         self.trace = None
         self.choices = []
         self.pending = []
@@ -494,7 +566,7 @@ class Interp:
         elif func.cls is not None and params and params[0] == "cls" and any(
                 (isinstance(d, ast.Name) and d.id == "classmethod") for d in func.node.decorator_list):
             # the class object: class-level constants resolve through it as they do through an instance
-            env["cls"] = Opaque("cls", "obj")
+            env["cls"] = self_obj if isinstance(self_obj, TypeVal) else Opaque("cls", "obj")
             params = params[1:]
         pos = list(pos)
         for p, v in zip(params, pos):
@@ -896,7 +968,8 @@ class Interp:
                     o_ = Opaque(node.id, "obj")
                     tl = mod.toplevel[node.id]
                     dn_ = (self.proj.dotted(tl.value.func, mod, None) or "") if isinstance(tl, ast.Assign) and isinstance(tl.value, ast.Call) else ""
-                    ext_call = bool(dn_) and (dn_ in self.ext_summaries or dn_ in ("itertools.count", "collections.defaultdict", "collections.OrderedDict", "collections.Counter"))
+                    ext_call = bool(dn_) and (dn_ in self.ext_summaries or dn_ in ("itertools.count", "collections.defaultdict", "collections.OrderedDict", "collections.Counter", "collections.namedtuple",
+                                                                                    "operator.itemgetter", "operator.attrgetter", "operator.methodcaller", "functools.partial"))
                     if isinstance(tl, ast.Assign) and (isinstance(tl.value, (ast.Dict, ast.Tuple, ast.List, ast.Lambda)) or ext_call):
                         # a module-level table the constant folder cannot represent (it holds lambdas / classes): evaluated here
                         try:
@@ -944,8 +1017,21 @@ class Interp:
                 e = self.folder.env(base.name)
                 if node.attr in e:
                     return _thaw(e[node.attr])
+                if node.attr in self.proj.modules[base.name].toplevel:
+                    # a module-level object the folder cannot represent (namedtuple type, table of lambdas, instance)
+                    return self.e_Name(ast.Name(id=node.attr, ctx=ast.Load(), lineno=getattr(node, "lineno", 0)), {"__module__": base.name})
                 raise Unsupported("cannot fold %s.%s" % (base.name, node.attr))
             return ModVal(base.name + "." + node.attr)
+        if isinstance(base, TypeVal) and base.name in self.proj.classes:
+            k0 = self.proj.classes[base.name]
+            for k in self.proj.mro(k0):
+                ce_ = self._class_env(k)
+                if node.attr in ce_:
+                    return ce_[node.attr]
+            if self.proj.method(k0, node.attr) is not None:
+                return BoundMethod(base, node.attr)
+            if node.attr == "__name__":
+                return k0.name
         if isinstance(base, (Opaque, Sym)):
             if node.attr in base.attrs:
                 return base.attrs[node.attr]
@@ -976,7 +1062,9 @@ class Interp:
                     # a method read as a value (handler tables, map(self.f, xs)): bound to the receiver
                     m_ = (self._class_method(base.kind, node.attr) if base.kind != "obj" else None) or self.proj.method(c, node.attr)
                     if m_ is not None and not any(isinstance(d, ast.Name) and d.id == "property" for d in m_.node.decorator_list):
-                        return BoundMethod(base, node.attr)
+                        bm_ = BoundMethod(base, node.attr)
+                        bm_.func = m_           # resolved here: the value may be called from a function of another class or module
+                        return bm_
                     for k in self.proj.mro(c):
                         vals = [n.value for n in k.node.body if isinstance(n, ast.Assign) and any(isinstance(t, ast.Name) and t.id == node.attr for t in n.targets)]
                         # A, B, C = <sequence>: the element at the name's position
@@ -1066,6 +1154,16 @@ class Interp:
         return self.binop(node.op, self.eval(node.left, env), self.eval(node.right, env), node)
 
     def binop(self, op, a, b, node):
+        if isinstance(a, SetVal) and isinstance(b, (SetVal, list, tuple)) and isinstance(op, (ast.BitOr, ast.BitAnd, ast.Sub, ast.BitXor)) and isinstance(b, SetVal):
+            same = lambda x, y: x is y or (type(x) is type(y) and x == y)
+            has = lambda coll, x: any(same(x, y) for y in coll)
+            if isinstance(op, ast.BitOr):
+                return _setval(list(a) + list(b))
+            if isinstance(op, ast.BitAnd):
+                return _setval([x for x in a if has(b, x)])
+            if isinstance(op, ast.Sub):
+                return _setval([x for x in a if not has(b, x)])
+            return _setval([x for x in a if not has(b, x)] + [x for x in b if not has(a, x)])
         if isinstance(op, ast.Add):
             if isinstance(a, list) and isinstance(b, list):
                 return a + b
@@ -1435,6 +1533,9 @@ class Interp:
                 step = self.eval(node.slice.step, env)
                 if isinstance(base, (list, tuple, str)) and all(x is None or (isinstance(x, int) and not isinstance(x, bool)) for x in (lo, hi, step)):
                     return base[lo:hi:step]
+                if isinstance(base, (Sym, AStr, Opaque)) and lo is None and hi is None and step == -1:
+                    nm_ = base.name if isinstance(base, (Sym, Opaque)) else base.render()
+                    return Sym("%s[::-1]" % nm_, "str" if not isinstance(base, Opaque) else "any", None)
                 raise Unsupported("extended slice of %r" % (base,))
             if isinstance(base, (list, tuple, str)):
                 return base[lo:hi]
@@ -1559,6 +1660,9 @@ class Interp:
         if name in ("inspect.isgenerator", "inspect.isgeneratorfunction") and len(pos) == 1:
             # generators are one kind of one-shot iterator; iter(list), map(), islice()/chain() objects and files are others
             return isinstance(pos[0], StreamVal) and getattr(pos[0], "is_generator", True) and name == "inspect.isgenerator"
+        r_lib = self._more_lib(name, pos, kw, node)
+        if r_lib is not NotImplemented:
+            return r_lib
         if name == "itertools.count":
             import itertools as _it2
             a_ = [x for x in list(pos) + [kw[k] for k in ("start", "step") if k in kw]]
@@ -1603,6 +1707,132 @@ class Interp:
             if pos:
                 self._counter_update(c, pos[0])
             return c
+        return NotImplemented
+
+    def _more_lib(self, name, pos, kw, node):
+        """operator / functools / itertools / collections.namedtuple: library callables on concrete sequences."""
+        import itertools as _it
+        env0 = {}
+        seq = lambda x: isinstance(x, (list, tuple, StreamVal, HostIter, dict, str))
+        if name == "operator.itemgetter" and pos:
+            keys = list(pos)
+
+            def get(i, p, k, n):
+                vals = [i._getitem(p[0], key, n, env0) for key in keys]
+                return vals[0] if len(vals) == 1 else tuple(vals)
+            return LibFn("itemgetter%r" % (tuple(keys),), get)
+        if name == "operator.attrgetter" and pos and all(isinstance(x, str) for x in pos):
+            names_ = list(pos)
+
+            def geta(i, p, k, n):
+                vals = []
+                for nm in names_:
+                    o = p[0]
+                    for part in nm.split("."):
+                        fake = ast.Attribute(value=ast.Name(id="_o", ctx=ast.Load()), attr=part, ctx=ast.Load())
+                        ast.copy_location(fake, n)
+                        ast.copy_location(fake.value, n)
+                        o = i.e_Attribute(fake, {"_o": o})
+                    vals.append(o)
+                return vals[0] if len(vals) == 1 else tuple(vals)
+            return LibFn("attrgetter%r" % (tuple(names_),), geta)
+        if name.startswith("operator.") and name.split(".")[1] in ("eq", "ne", "lt", "le", "gt", "ge") and len(pos) == 2:
+            op = {"eq": ast.Eq, "ne": ast.NotEq, "lt": ast.Lt, "le": ast.LtE, "gt": ast.Gt, "ge": ast.GtE}[name.split(".")[1]]()
+            cmp_ = ast.Compare(left=ast.Name(id="_a", ctx=ast.Load()), ops=[op], comparators=[ast.Name(id="_b", ctx=ast.Load())])
+            ast.copy_location(cmp_, node)
+            for x in ast.walk(cmp_):
+                ast.copy_location(x, node)
+            return self.e_Compare(cmp_, {"_a": pos[0], "_b": pos[1]})
+        if name.startswith("operator.") and name.split(".")[1] in ("eq", "ne", "lt", "le", "gt", "ge") and not pos:
+            return NotImplemented
+        if name == "operator.getitem" and len(pos) == 2:
+            return self._getitem(pos[0], pos[1], node, env0)
+        if name == "operator.contains" and len(pos) == 2:
+            return self.contains(pos[0], pos[1], node)
+        if name == "operator.not_" and len(pos) == 1:
+            return not self.decide(pos[0], node)
+        if name == "operator.methodcaller" and pos and isinstance(pos[0], str):
+            mname, a0, k0 = pos[0], list(pos[1:]), dict(kw)
+            return LibFn("methodcaller(%s)" % mname, lambda i, p, k, n: i.call_method(p[0], mname, a0, k0, n, env0))
+        if name == "functools.partial" and pos:
+            f0, a0, k0 = pos[0], list(pos[1:]), dict(kw)
+            return LibFn("partial", lambda i, p, k, n: i.call(f0, a0 + list(p), dict(k0, **k), n, env0))
+        if name == "functools.reduce" and len(pos) in (2, 3) and seq(pos[1]):
+            items = list(pos[1])
+            if len(pos) == 3:
+                acc = pos[2]
+            elif items:
+                acc = items.pop(0)
+            else:
+                raise RaiseEx("TypeError", "reduce() of empty iterable with no initial value", node)
+            for x in items:
+                acc = self.call(pos[0], [acc, x], {}, node, env0)
+            return acc
+        if name in ("itertools.takewhile", "itertools.dropwhile") and len(pos) == 2 and isinstance(pos[1], (list, tuple, StreamVal, HostIter)):
+            pred, src = pos
+
+            def gen():
+                it_ = iter(src)
+                if name.endswith("takewhile"):
+                    for x in it_:
+                        if not self.decide(self.call(pred, [x], {}, node, env0), node):
+                            return
+                        yield x
+                else:
+                    dropping = True
+                    for x in it_:
+                        if dropping and self.decide(self.call(pred, [x], {}, node, env0), node):
+                            continue
+                        dropping = False
+                        yield x
+            return HostIter(gen(), name.split(".")[-1])
+        if name == "itertools.starmap" and len(pos) == 2 and isinstance(pos[1], (list, tuple, StreamVal, HostIter)):
+            return HostIter((self.call(pos[0], list(x), {}, node, env0) for x in pos[1]), "starmap")
+        if name == "itertools.product" and pos and all(isinstance(x, (list, tuple, str)) for x in pos) and set(kw) <= {"repeat"}:
+            return [tuple(t) for t in _it.product(*pos, repeat=kw.get("repeat", 1))]
+        if name == "itertools.repeat" and len(pos) == 2 and isinstance(pos[1], int):
+            return [pos[0]] * pos[1]
+        if name == "itertools.repeat" and len(pos) == 1:
+            return HostIter(_it.repeat(pos[0]), "repeat")
+        if name == "itertools.cycle" and len(pos) == 1 and isinstance(pos[0], (list, tuple)):
+            return HostIter(_it.cycle(list(pos[0])), "cycle")
+        if name == "itertools.filterfalse" and len(pos) == 2 and isinstance(pos[1], (list, tuple, StreamVal, HostIter)):
+            pred_ = pos[0]
+            return HostIter((x for x in pos[1] if not (self.decide(self.call(pred_, [x], {}, node, env0), node) if pred_ is not None else self.decide(x, node))), "filterfalse")
+        if name == "itertools.accumulate" and pos and isinstance(pos[0], (list, tuple)) and all(isinstance(x, (int, float)) for x in pos[0]) and len(pos) == 1:
+            return list(_it.accumulate(pos[0]))
+        if name == "itertools.pairwise" and len(pos) == 1 and isinstance(pos[0], (list, tuple, StreamVal, HostIter)):
+            items_ = list(pos[0])
+            return list(zip(items_, items_[1:]))
+        if name == "itertools.zip_longest" and pos and all(isinstance(x, (list, tuple)) for x in pos):
+            return [tuple(t) for t in _it.zip_longest(*pos, fillvalue=kw.get("fillvalue"))]
+        if name == "itertools.tee" and pos and isinstance(pos[0], (list, tuple, StreamVal, HostIter)):
+            items = list(pos[0])
+            n_ = pos[1] if len(pos) > 1 else 2
+            return tuple(StreamVal(items, "tee") for _k in range(n_))
+        if name == "itertools.chain.from_iterable" and len(pos) == 1 and isinstance(pos[0], (StreamVal, HostIter)):
+            return HostIter((y for x in pos[0] for y in (x if isinstance(x, (list, tuple, StreamVal, HostIter)) else list(x))), "chain")
+        if name == "collections.namedtuple" and len(pos) >= 2 and isinstance(pos[0], str):
+            fields = pos[1].replace(",", " ").split() if isinstance(pos[1], str) else list(pos[1])
+            tname = pos[0]
+            defaults = list(kw.get("defaults") or [])
+
+            def make(i, p, k, n):
+                vals = list(p)
+                for f_ in fields[len(vals):]:
+                    if f_ in k:
+                        vals.append(k[f_])
+                    elif defaults and len(fields) - fields.index(f_) <= len(defaults):
+                        vals.append(defaults[fields.index(f_) - (len(fields) - len(defaults))])
+                    else:
+                        raise RaiseEx("TypeError", "%s() missing argument %r" % (tname, f_), n)
+                if len(vals) != len(fields):
+                    raise RaiseEx("TypeError", "%s() takes %d arguments" % (tname, len(fields)), n)
+                return NamedTuple(vals, fields, tname)
+            t_ = LibFn("namedtuple %s" % tname, make)
+            t_.attrs = {"_fields": tuple(fields), "__name__": tname}
+            t_.methods = {"_make": lambda i, p, k, n: NamedTuple(list(p[0]), fields, tname)}
+            return t_
         return NotImplemented
 
     def _counter_update(self, c, items):
@@ -1777,6 +2007,11 @@ class Interp:
                 return self.summaries[q](self, pos, kw, node)
             return self.call_func(fn.func, pos, kw, node=node, closure=fn.closure)
         if isinstance(fn, BoundMethod):
+            m_ = getattr(fn, "func", None)
+            if m_ is not None and isinstance(fn.base, Opaque):
+                if m_.qual in self.summaries:
+                    return self.summaries[m_.qual](self, pos, kw, node)
+                return self.call_func(m_, pos, kw, self_obj=fn.base, node=node)
             return self.call_method(fn.base, fn.attr, pos, kw, node, env)
         if isinstance(fn, Builtin):
             return self.call_builtin(fn.name, pos, kw, node, env)
@@ -1790,6 +2025,8 @@ class Interp:
             r_ = self._lazy_lib(fn.name, pos, kw, node)
             if r_ is not NotImplemented:
                 return r_
+        if hasattr(fn, "ai_invoke"):
+            return fn.ai_invoke(self, pos, kw, node)
         if isinstance(fn, Callback):
             self.trace.events.append(("callback", fn, pos, kw, node))
             return fn.fn(pos, kw) if fn.fn is not None else fn.result
@@ -1811,6 +2048,8 @@ class Interp:
         raise Unsupported("call of %r at line %s" % (fn, node.lineno))
 
     def call_type(self, name, pos, kw, node):
+        if name in ("set", "frozenset", "dict") and pos and isinstance(pos[0], (StreamVal, HostIter)):
+            pos = [list(pos[0])] + list(pos[1:])
         if name == "int":
             v = pos[0]
             if isinstance(v, int):
@@ -1888,6 +2127,8 @@ class Interp:
                 v = pos[0]
                 if isinstance(v, dict):
                     d.update(v)
+                elif hasattr(v, "as_dict"):
+                    d.update(v.as_dict())           # dict(row) of a database row: by column name
                 elif isinstance(v, (list, tuple)):
                     for k, x in v:
                         d[k] = x
@@ -1910,7 +2151,8 @@ class Interp:
             return Opaque(name, "exc")
         if name in self.proj.classes:
             self.trace.events.append(("construct", name, pos, kw, node))
-            if name in self.construct_real:
+            is_exc = any(k_.name.endswith(("Error", "Exception", "Warning")) for k_ in self.proj.mro(self.proj.classes[name]))
+            if name in self.construct_real or (not is_exc and ("*" in self.construct_real or (self.construct_helpers and name not in DOMAIN_CLASSES))):
                 self._n_objects = getattr(self, "_n_objects", 0) + 1
                 short = name.split(".")[-1]
                 o = Opaque("%s#%d" % (short, self._n_objects), short)
@@ -1923,6 +2165,8 @@ class Interp:
         raise Unsupported("constructor %s" % name)
 
     def call_builtin(self, name, pos, kw, node, env):
+        if name in ("any", "all", "sum", "sorted", "max", "min") and pos and isinstance(pos[0], (StreamVal, HostIter)):
+            pos = [list(pos[0])] + list(pos[1:])        # consumed, as the builtin does
         if name == "super":
             func = env.get("__func__")
             c_ = self.proj.classes.get(pos[0].name) if pos and isinstance(pos[0], TypeVal) else getattr(func, "cls", None)
@@ -1976,6 +2220,12 @@ class Interp:
                     return RepList(None, coll)
                 raise Unsupported("map over opaque with %r" % (f,))
             raise Unsupported("map(%r)" % (coll,))
+        if name == "filter" and len(pos) == 2 and isinstance(pos[1], (list, tuple, StreamVal, HostIter)):
+            pred_ = pos[0]
+            keep = lambda x: self.decide(self.call(pred_, [x], {}, node, env), node) if pred_ is not None else self.decide(x, node)
+            if isinstance(pos[1], (StreamVal, HostIter)):
+                return HostIter((x for x in pos[1] if keep(x)), "filter(%s)" % pos[1].name)
+            return GenList([x for x in pos[1] if keep(x)])
         if name == "locals":
             return {k: v for k, v in env.items() if not k.startswith("__")}
         if name == "hasattr":
@@ -2229,6 +2479,18 @@ class Interp:
             return base.ai_call(self, attr, pos, kw, node)
         if attr == "__getitem__" and len(pos) == 1 and not kw:
             return self._getitem(base, pos[0], node, env)
+        if isinstance(base, TypeVal) and base.name in self.proj.classes:
+            m_ = self.proj.method(self.proj.classes[base.name], attr)
+            if m_ is not None:
+                decs = [d.id for d in m_.node.decorator_list if isinstance(d, ast.Name)]
+                if m_.qual in self.summaries:
+                    return self.summaries[m_.qual](self, pos, kw, node)
+                if "classmethod" in decs:
+                    return self.call_func(m_, pos, kw, self_obj=base, node=node)
+                if "staticmethod" in decs:
+                    return self.call_func(m_, pos, kw, node=node)
+                if pos and isinstance(pos[0], Opaque):
+                    return self.call_func(m_, pos[1:], kw, self_obj=pos[0], node=node)     # Class.method(obj, ...)
         if isinstance(base, TypeVal) and base.name == "dict" and attr == "fromkeys" and pos and isinstance(pos[0], (list, tuple, StreamVal, HostIter)):
             out = {}
             for k_ in pos[0]:
